@@ -417,19 +417,28 @@ SyncAdd(s, t, local) ==
   IF pc # "ok" THEN {Res(s, pc, {})}
   ELSE UNION { {Res(x, o.res, o.ev) : x \in RunReorg(o.st, FALSE)} : o \in AddLocked(s, t, local) }
 
-(* AddRemotesSync(<<t1, t2>>): the pre-checks see the pool before the batch, the survivors   *)
-(* go through the critical section in order, then ONE promotion run.  res = <<r1, r2>>     *)
-RECURSIVE BatchLocked(_, _, _, _)
-BatchLocked(S, ts, pcs, i) ==     \* S: set of [st, rs (results so far), ev]
+(* AddRemotesSync(ts) / AddLocals(ts) for a batch ts = <<t1, ..., tk>> (addTxs):              *)
+(*  1. every element is pre-filtered against the pool as it is BEFORE the batch: "known"     *)
+(*     (already pooled), "sender" (bad signature / wrong chain id), "blacklisted"; such a    *)
+(*     slot keeps that error and never reaches the critical section;                         *)
+(*  2. the survivors go through the critical section (add) left to right, each seeing the    *)
+(*     effects of the earlier ones (a repeated element is "known" there);                    *)
+(*  3. their results are merged back into the slots the pre-filter left open, in order --    *)
+(*     res[i] is the outcome of ts[i], whatever lies between;                                *)
+(*  4. ONE promotion run, unless every element was pre-filtered.                             *)
+RECURSIVE BatchLocked(_, _, _, _, _)
+BatchLocked(S, ts, pcs, i, local) ==     \* S: set of [st, rs (results so far), ev]
   IF i > Len(ts) THEN S
   ELSE BatchLocked(UNION { IF pcs[i] # "ok" THEN {[st |-> x.st, rs |-> Append(x.rs, pcs[i]), ev |-> x.ev]}
                            ELSE {[st |-> o.st, rs |-> Append(x.rs, o.res), ev |-> x.ev \cup o.ev]
-                                 : o \in AddLocked(x.st, ts[i], FALSE)} : x \in S }, ts, pcs, i + 1)
-SyncBatch(s, ts) ==
+                                 : o \in AddLocked(x.st, ts[i], local)} : x \in S }, ts, pcs, i + 1, local)
+BatchAdd(s, ts, local) ==
   LET pcs == [i \in 1..Len(ts) |-> PreCheck(s, ts[i])]
-      B   == BatchLocked({[st |-> s, rs |-> <<>>, ev |-> {}]}, ts, pcs, 1)
+      B   == BatchLocked({[st |-> s, rs |-> <<>>, ev |-> {}]}, ts, pcs, 1, local)
   IN IF \A i \in 1..Len(ts) : pcs[i] # "ok" THEN {Res(s, pcs, {})}
      ELSE UNION { {Res(y, x.rs, x.ev) : y \in RunReorg(x.st, FALSE)} : x \in B }
+SyncBatch(s, ts) == BatchAdd(s, ts, FALSE)
+PreFiltered == {"known", "sender", "blacklisted"}
 
 (* second half of an asynchronous submission: the promotion run for the dirty accounts    *)
 Promote(s) == {Res(x, "ok", {}) : x \in RunReorg(s, FALSE)}
